@@ -326,6 +326,9 @@ def rule_update(ctx: Ctx) -> RuleResult:
                 if lab == "true" and any(a.kind == "call" and a.text.endswith(".startswith") for a in flow.depends(t, at.id if at else None)):
                     guarded = True
         if not guarded:
+            # the sense of the tests: `<value>.startswith(<prefix>)` is known to hold here (elif chains, negated guards)
+            guarded = any(tr_ and ".startswith(" in t_ for t_, tr_ in facts_at(ctx, f, n))
+        if not guarded:
             problems.append(f"`{norm(n)}` removes the prefix character from every value, not only from those that start with it "
                             f"(a plain value containing it is altered)")
     rets = _rets(f)
